@@ -32,13 +32,26 @@ Correspondence (all against the REAL code in $VERIF_REPO, nothing copied):
      interpreter, the handshake is performed and the really running server is sent each kind of message the client opens a
      conversation with (CMD_PING, CMD_TCP_CONNECT to a closed port, CMD_DNS_REQ, CMD_UDP_OPEN/DATA/CLOSE, CMD_HOST_REQ with the
      seed hosts joined as client.py:823 does) each followed by a CMD_PING whose CMD_PONG must come back; it must have announced
-     CMD_ROUTES, still be alive at the end and have printed no import failure."""
+     CMD_ROUTES, still be alive at the end and have printed no import failure.
+  H  the client is a win32 one (part of C's case list): the REAL ssh.connect runs down its win32 branch -- sshuttle.ssh and
+     sshuttle.helpers see sys.platform == 'win32', Popen (as sshuttle.ssh sees it) is a stand-in whose stdin is a RAW writer that
+     takes 1 byte / at most 1000, 4096, 16383 bytes / a random part / everything but for one interrupted write / everything of
+     what each write() offers and returns that number (io.RawIOBase.write on a pipe), whose stdout is a raw reader over a real
+     pipe (full / short / 7-byte reads) -- so that the upload crosses the REAL helpers.SocketRWShim (its own socketpair and
+     threads).  Implementation-only oracle: the bytes arriving on ssh's stdin are byte for byte the start-up upload (the two
+     payloads connect wrote to the relay's socket file; the same two the non-win32 branch writes for the same table and
+     options) for every segmentation of the pipe writes, within a watchdog limit; the server's announcement written to the
+     stdout pipe is read back from connect's rfile; the bytes that ARRIVED, cut as the pipe took them, are then fed to the
+     real bootstrap and go through every oracle of part C."""
 import hashlib
 import importlib.machinery
 import importlib.util
+import io
 import json
 import os
+import random
 import re
+import select
 import shutil
 import socket
 import subprocess
@@ -58,7 +71,10 @@ RULE = ("module tables x option sets x segmentations: real and generated module 
         "--ssh-cmd forms x delimiter on/off x remote shell (posix/cmd/powershell) x verbosity x assembler length x remote host kinds "
         "(python3+python, python3 only, python only, python3 -V failing, none) x login shell (dash, bash); completeness of the uploaded program: "
         "auto_hosts x seed hosts (absent / empty because of -H / one or two names) x auto_nets x latency control, each both read back statically "
-        "(imports vs uploaded modules) and assembled + probed with every message kind the client sends first on a channel; a case is non-trivial when at least one module body crosses a piece boundary "
+        "(imports vs uploaded modules) and assembled + probed with every message kind the client sends first on a channel; win32 client: shipped sources (with and without non-ASCII assembler) and generated tables (tiny .. > 1 MiB, both codecs) x what ssh's raw stdin pipe "
+        "takes per write() behind the real helpers.SocketRWShim (everything / 1 byte / at most 1000, 4096, 16383 / a random part of each / one interrupted write) "
+        "x how ssh's raw stdout pipe reads (full / short / 7 bytes), the arrived bytes cut exactly as the pipe took them; "
+        "a case is non-trivial when at least one module body crosses a piece boundary "
         "or the stream is malformed; distinct by (table hash, options, cutting)")
 TRUSTED_BASE = [
     "zlib: NOT verified — Section hypothesis `sync_flush_law` (decompressing compress(x)+flush(Z_SYNC_FLUSH) of the k-th chunk on the shared stream yields exactly x); exercised with real zlib in part C",
@@ -73,10 +89,19 @@ TRUSTED_BASE = [
     "('!ccHHH' header; command numbers, HDR_LEN and names are taken from the client's own sshuttle.ssnet), a datagram socket of the harness standing in for the "
     "name server / datagram peer and a bound, non-listening TCP port as the closed port, all on 127.0.0.1; `ast` for finding import statements "
     "(imports made through importlib / __import__ / exec of strings are not seen by the static oracle — the probe is the only witness for those)",
+    "win32 client cases: `sys` as seen by sshuttle.ssh / sshuttle.helpers is a proxy answering platform == 'win32' (helpers' one also collects what the relay threads "
+    "print to stderr); the ssh process is a stand-in Popen that honours stdin/stdout=PIPE and bufsize the way subprocess does (bufsize=0: raw files; otherwise "
+    "io.BufferedWriter/Reader around them) -- its stdin is an io.RawIOBase whose write() takes a scripted 1..len(data) bytes and returns the count, its stdout an "
+    "io.RawIOBase over a real os.pipe; helpers.SocketRWShim, its socketpair and its two threads are the real ones (the harness only remembers the instance, through "
+    "the name sshuttle.ssh.SocketRWShim, to end and join the threads, and passes connect's write file through a recorder); the relay runs on this kernel's AF_UNIX "
+    "socketpair, not on Windows' emulation; watchdog: 15 s without a byte arriving while bytes are missing, 180 s in all",
     "modelled, not verified: the POSIX shell's quoting rules (XCU 2.2) for the fragment blanks / single quotes / double quotes / backslash (Model/ShQuote.v sh_scan; compared with shlex.split and exercised against dash and bash on every run)",
 ]
 ASSUMPTIONS = [
-    "a blocking wfile.write() on the ssh socket transfers the whole buffer (ssh.connect ignores the return value)",
+    "a blocking wfile.write() on the ssh socket transfers the whole buffer (ssh.connect ignores the return value); on a win32 client the socket is the relay's "
+    "(helpers.SocketRWShim) and the same is assumed of it -- a case in which the kernel took less is counted and not judged",
+    "win32 client: a write() on ssh's raw stdin pipe takes at least one byte and reports honestly how many (blocking pipe: never 0 / None, no error); "
+    "ssh itself passes its stdin on unchanged",
     "get_module_source opens module files in text mode: byte identity holds for LF-terminated valid UTF-8 sources under a UTF-8 locale (CRLF would be normalised to LF)",
     "module sources are valid Python for the remote interpreter and execute without raising (otherwise the assembler stops at that module)",
     "module names passed to empackage are ASCII, newline-free, non-blank and unchanged by strip(); parents precede children",
@@ -276,11 +301,178 @@ class FakePopen(object):
             self.keep = None
 
 
+# ---- the win32 branch of ssh.connect: ssh is started with stdin=PIPE, stdout=PIPE, bufsize=0, i.e. p.stdin / p.stdout
+# are RAW files, and helpers.SocketRWShim relays between them and the socket the client writes the upload to.
+
+WIN32_WRITE_MODES = ["whole", "one", "cap4096", "cap1000", "cap16383", "random", "once"]   # (the relay offers at most 16384 at a time)
+RELAY_LIMIT = 180.0         # s: the relay has this long to deliver an upload (watchdog; far above anything seen)
+RELAY_STALL = 15.0          # s without a single byte arriving while bytes are still missing
+
+
+class SysAs(object):
+    """the `sys` module as one sshuttle module sees it: every attribute is the real one except those given"""
+
+    def __init__(self, **over):
+        self.__dict__.update(over)
+
+    def __getattr__(self, k):
+        return getattr(sys, k)
+
+
+class ScriptedPipeW(io.RawIOBase):
+    """write end of ssh's stdin pipe as Popen(bufsize=0) hands it out: a raw file whose write() takes between 1 and
+    len(data) bytes -- as scripted -- and returns the number taken, like io.FileIO.write on a blocking pipe"""
+
+    def __init__(self, mode, seed):
+        io.RawIOBase.__init__(self)
+        self.mode, self.rng = mode, random.Random(seed)
+        self.got = bytearray()
+        self.chunks = []            # the accepted pieces, in order (the segmentation ssh's stdin sees)
+        self.calls = 0
+        self.short = 0
+        self.first_short = None
+        self.head = []              # (offered, taken) of the first calls
+        self.once_at = self.rng.randint(1, 3)
+        self.lock = threading.Lock()
+
+    def writable(self):
+        return True
+
+    def take(self, n):
+        m = self.mode
+        if m == "whole" or n <= 1:
+            return n
+        if m == "one":
+            return 1
+        if m.startswith("cap"):
+            return min(n, int(m[3:]))
+        if m == "once":                 # a single interrupted write, everything else is taken whole
+            return n // 2 if self.calls == self.once_at else n
+        r = self.rng
+        return n if r.random() < 0.1 else r.choice([1, r.randint(1, n), r.randint(1, n), r.randint(1, min(n, 4096)), n - 1])
+
+    def write(self, data):
+        data = bytes(data)
+        with self.lock:
+            self.calls += 1
+            k = self.take(len(data))
+            if k < len(data):
+                self.short += 1
+                if self.first_short is None:
+                    self.first_short = {"write_call": self.calls, "at_stream_offset": len(self.got), "offered": len(data), "taken": k}
+            if len(self.head) < 24:
+                self.head.append((len(data), k))
+            if k:
+                self.got += data[:k]
+                self.chunks.append(data[:k])
+        return k
+
+    def snapshot(self):
+        with self.lock:
+            return bytes(self.got)
+
+    def arrived(self):
+        with self.lock:
+            return len(self.got)
+
+
+class ScriptedPipeR(io.RawIOBase):
+    """read end of ssh's stdout pipe (raw): returns what is there, possibly fewer bytes than asked; b'' at end of stream"""
+
+    def __init__(self, fd, mode, seed):
+        io.RawIOBase.__init__(self)
+        self.fd, self.mode, self.rng = fd, mode, random.Random(seed)
+
+    def readable(self):
+        return True
+
+    def fileno(self):
+        return self.fd
+
+    def read(self, n=-1):
+        if n is None or n < 0:
+            n = 65536
+        if self.mode == "short":
+            n = self.rng.randint(1, max(1, n))
+        elif self.mode == "cap7":
+            n = min(n, 7)
+        return os.read(self.fd, n)
+
+    def readinto(self, b):
+        d = self.read(len(b))
+        b[:len(d)] = d
+        return len(d)
+
+    def close(self):
+        if self.fd is not None:
+            try:
+                os.close(self.fd)
+            except OSError:
+                pass
+            self.fd = None
+        io.RawIOBase.close(self)
+
+
+class WinPopen(object):
+    """ssh as subprocess.Popen presents it when started with pipes: .stdin / .stdout are raw files for bufsize=0 and
+    buffered ones otherwise (None where no PIPE was asked for)"""
+
+    def __init__(self, argv, spec, stdin=None, stdout=None, bufsize=-1, **kw):
+        self.argv = list(argv)
+        self.kw = dict(kw, stdin=stdin, stdout=stdout, bufsize=bufsize)
+        self.pid = 4242
+        self.rv = None
+        self.terminated = 0
+        self.pipe_w = ScriptedPipeW(spec["write_mode"], spec["case_seed"] ^ 0x5151)
+        r, self.out_w = os.pipe()
+        self.pipe_r = ScriptedPipeR(r, spec.get("read_mode", "full"), spec["case_seed"] ^ 0x1717)
+        size = bufsize if bufsize and bufsize > 0 else io.DEFAULT_BUFFER_SIZE
+        self.stdin = None if stdin != subprocess.PIPE else self.pipe_w if bufsize == 0 else io.BufferedWriter(self.pipe_w, size)
+        self.stdout = None if stdout != subprocess.PIPE else self.pipe_r if bufsize == 0 else io.BufferedReader(self.pipe_r, size)
+
+    def poll(self):
+        return self.rv
+
+    def terminate(self):
+        self.terminated += 1
+
+    def close_out(self):
+        if self.out_w is not None:
+            os.close(self.out_w)
+            self.out_w = None
+
+    def close(self):
+        self.close_out()
+        self.pipe_r.close()
+
+
+class RecW(object):
+    """the write file ssh.connect gets from the relay, passing everything through; remembers what it was handed"""
+
+    def __init__(self, f, handed):
+        self.f, self.handed = f, handed
+
+    def write(self, data):
+        self.handed.append((bytes(data), None))
+        n = self.f.write(data)
+        self.handed[-1] = (bytes(data), n)
+        return n
+
+    def __getattr__(self, k):
+        return getattr(self.f, k)
+
+
 class Boundary(object):
     """installs the simulated boundary around sshuttle.ssh; use as a context manager"""
 
-    def __init__(self, srcs=None, stub_zlib=False, verbose=0, bindir=None):
+    def __init__(self, srcs=None, stub_zlib=False, verbose=0, bindir=None, win32=None):
         self.srcs = srcs
+        self.win32 = win32          # None, or the pipe script: sshuttle.ssh and sshuttle.helpers then see sys.platform == 'win32'
+        self.shim = None            # the real helpers.SocketRWShim ssh.connect built (win32)
+        self.relay_threads = []
+        self.files = None
+        self.handed = []            # (bytes, return value) of every write() ssh.connect made on the relay's write file
+        self.relay_stderr = io.StringIO()
         self.stub_zlib = stub_zlib
         self.verbose = verbose
         self.bindir = bindir        # directory holding the stand-in `ssh` / `sshpass` programs (remote cases)
@@ -337,7 +529,7 @@ class Boundary(object):
 
         def popen(argv, **kw):
             me.sshpass = os.environ.get("SSHPASS")       # no env= in the call: the child inherits os.environ
-            me.proc = FakePopen(argv, **kw)
+            me.proc = WinPopen(argv, me.win32, **kw) if me.win32 else FakePopen(argv, **kw)
             return me.proc
 
         def socketpair():
@@ -354,11 +546,38 @@ class Boundary(object):
             exec(STUB_ZLIB, z.__dict__)
             ssh.zlib = z
         helpers.verbose = self.verbose
+        self.old_w = None
+        if self.win32:
+            self.old_w = (ssh.sys, ssh.SocketRWShim, helpers.sys)
+            real_shim = ssh.SocketRWShim
+
+            class ShimFiles(object):
+                def __init__(self, sh):
+                    self.sh = sh
+
+                def makefiles(self):
+                    r, w = self.sh.makefiles()
+                    me.files = (r, w)
+                    return r, RecW(w, me.handed)
+
+                def __getattr__(self, k):
+                    return getattr(self.sh, k)
+
+            def make_shim(*a, **kw):
+                before = set(threading.enumerate())
+                me.shim = real_shim(*a, **kw)           # the real relay, unmodified; only remembered for the end of the case
+                me.relay_threads = [t for t in threading.enumerate() if t not in before]
+                return ShimFiles(me.shim)
+            ssh.sys = SysAs(platform="win32")
+            helpers.sys = SysAs(platform="win32", stderr=self.relay_stderr)     # the relay threads report there
+            ssh.SocketRWShim = make_shim
         return self
 
     def __exit__(self, *a):
         ssh, helpers = self.ssh, self.helpers
         (ssh.ssubprocess, ssh.importlib, ssh.socket, ssh.zlib, helpers.verbose, helpers.log) = self.old
+        if self.old_w is not None:
+            ssh.sys, ssh.SocketRWShim, helpers.sys = self.old_w
         for k, v in zip(("PATH", "SSHPASS"), self.old_env):
             if v is None:
                 os.environ.pop(k, None)
@@ -388,6 +607,140 @@ def real_connect(options, srcs=None, stub_zlib=False, verbose=0, remote=None, bi
         wfile.close()
         real_connect.sshpass = bd.sshpass
         return bd.proc.argv, list(bd.sock.rec), list(bd.packaged)
+
+
+def win32_connect(options, srcs, stub_zlib, verbose, spec, announce=b""):
+    """the REAL ssh.connect down its win32 branch (sshuttle.ssh and sshuttle.helpers see sys.platform == 'win32'): Popen is
+    WinPopen (raw stdin taking scripted short writes, raw stdout), the relay is the real helpers.SocketRWShim with its real
+    threads and a real socketpair.  connect runs in a thread of its own and every wait is bounded, so a relay that stops
+    taking or delivering bytes is observed instead of hanging the check.  `announce` is then written to ssh's stdout pipe
+    and read back from the rfile connect returned.  -> observations (dict)"""
+    import traceback
+    obs = {"blocked": False, "exc": None, "announce_back": None}
+    with Boundary(srcs, stub_zlib, verbose, win32=spec) as bd:
+        box = {}
+
+        def run():
+            try:
+                box["ret"] = bd.ssh.connect(None, None, None, None, False, None, options)
+            except BaseException:
+                box["exc"] = traceback.format_exc()
+        t = threading.Thread(target=run, daemon=True, name="c18-win32-connect")
+        t0 = time.time()
+        t.start()
+        # connect's blocking writes on the relay socket only return while the relay keeps taking bytes off it
+        last, last_t = -1, None
+        while t.is_alive():
+            t.join(0.01)
+            now = time.time()
+            if bd.proc is not None:
+                n = bd.proc.pipe_w.arrived()
+                if n != last or last_t is None:
+                    last, last_t = n, now
+                if now - last_t > 2 * RELAY_STALL:
+                    break
+            if now - t0 > RELAY_LIMIT:
+                break
+        if t.is_alive():
+            obs["blocked"] = True
+            s1 = getattr(bd.shim, "_s1", None)
+            if s1 is not None:
+                try:
+                    s1.shutdown(socket.SHUT_RDWR)        # lets the blocked write (and the relay's recv) return
+                except OSError:
+                    pass
+            t.join(10)
+        obs["exc"] = box.get("exc")
+        p = bd.proc
+        handed = list(bd.handed)
+        sent = b"".join(d for d, _ in handed)
+        obs["short_send"] = any(n is not None and n != len(d) for d, n in handed)
+        if p is not None and not obs["blocked"]:
+            # the upload is on its way: wait until ssh's stdin has as many bytes as were handed over, or nothing moves any more
+            last, last_t = -1, time.time()
+            while True:
+                n, now = p.pipe_w.arrived(), time.time()
+                if n >= len(sent):
+                    break
+                if n != last:
+                    last, last_t = n, now
+                elif now - last_t > RELAY_STALL or now - t0 > RELAY_LIMIT:
+                    break
+                if bd.relay_threads and not any(x.is_alive() for x in bd.relay_threads) and p.pipe_w.arrived() == n:
+                    break
+                time.sleep(0.002)
+        ret = box.get("ret")
+        if ret is not None and announce and p is not None and p.out_w is not None:
+            back = b""
+            try:
+                os.write(p.out_w, announce)
+                t1 = time.time()
+                while len(back) < len(announce) and time.time() - t1 < RELAY_STALL:
+                    if select.select([ret[1]], [], [], 0.05)[0]:
+                        d = ret[1].read(len(announce) - len(back))
+                        if not d:
+                            break
+                        back += d
+            except (OSError, ValueError):
+                pass
+            obs["announce_back"] = back
+        # end of the case: the client's end of the relay socket is closed (the relay drains what is in flight and ends),
+        # then ssh's stdout reaches end of stream; both relay threads must be gone before the next case
+        for f in (ret[1:] if ret is not None else bd.files or ()):
+            try:
+                f.close()
+            except (OSError, ValueError):
+                pass
+        s2 = getattr(bd.shim, "_s2", None)
+        if s2 is not None:
+            try:
+                s2.close()
+            except OSError:
+                pass
+        t1 = time.time()
+        while len([x for x in bd.relay_threads if x.is_alive()]) > 1 and time.time() - t1 < RELAY_STALL:
+            time.sleep(0.002)
+        if p is not None:
+            p.close_out()
+        for x in bd.relay_threads:
+            x.join(max(0.1, RELAY_STALL - (time.time() - t1)))
+        obs["left_behind"] = len([x for x in bd.relay_threads if x.is_alive()]) + (1 if t.is_alive() else 0)
+        pw = p.pipe_w if p is not None else None
+        obs.update(argv=p.argv if p is not None else None, writes=[d for d, _ in handed], packaged=list(bd.packaged),
+                   delivered=pw.snapshot() if pw else b"", chunks=list(pw.chunks) if pw else [],
+                   popen={"stdin": p.kw["stdin"], "stdout": p.kw["stdout"], "bufsize": p.kw["bufsize"]} if p is not None else None,
+                   terminated=p.terminated if p is not None else 0, relay_stderr=bd.relay_stderr.getvalue()[-600:],
+                   script={"write_mode": spec["write_mode"], "read_mode": spec.get("read_mode", "full"),
+                           "write_calls": pw.calls if pw else 0, "short_writes": pw.short if pw else 0,
+                           "first_short_write": pw.first_short if pw else None,
+                           "first_calls_offered_taken": list(pw.head) if pw else []})
+    return obs
+
+
+WIN32_VIOLATION = ("win32 client (ssh started with pipes, helpers.SocketRWShim between the client's socket and ssh's stdin): the bytes "
+                   "arriving on ssh's stdin are not byte for byte the start-up upload (assembler + module and option records) when "
+                   "the raw pipe takes fewer bytes than a write() offers")
+WIN32_ANNOUNCE_VIOLATION = ("win32 client: the server's announcement written to ssh's stdout pipe does not reach the client's rfile "
+                            "byte for byte through helpers.SocketRWShim")
+
+
+def win32_case(spec, sync):
+    """the bootstrap case a win32 spec stands for: everything is regenerated from spec['case_seed'] (used by --replay too)"""
+    r = random.Random(spec["case_seed"])
+    profile = spec["profile"]
+    if profile.startswith("shipped"):
+        srcs = {"sshuttle.assembler": assembler_with_comments(r)} if profile == "shipped+comments" else None
+        options = dict(gen_options(r, full=True), auto_hosts=False, auto_nets=False)
+    else:
+        srcs = gen_table(r, profile)
+        if spec.get("non_ascii"):
+            if profile != "tiny":
+                sprinkle(r, srcs)
+            srcs["sshuttle.assembler"] = assembler_with_comments(r)
+        options = gen_options(r, full=True)
+    return {"mode": spec.get("codec", "real"), "srcs": srcs, "how": "pipe-writes", "profile": profile, "options": options,
+            "real_server": profile.startswith("shipped"), "sync": sync, "verbose": r.choice([0, 1, 2]), "extra": b"",
+            "win32": spec}
 
 
 # ---------------------------------------------------------------------------
@@ -1046,6 +1399,19 @@ def parse_run(line):
 
 
 def bootstrap_case(ctx, scr, case, rng):
+    """one bootstrap case.  A win32 case whose relay already damaged the upload reports ONE violation: what the remote end
+    made of the damaged stream (the oracles below) is attached to it instead of being reported as failures of their own"""
+    before = len(ctx.violations)
+    r = bootstrap_case_run(ctx, scr, case, rng)
+    new = ctx.violations[before:]
+    if case.get("win32") and len(new) > 1 and new[0][0] == WIN32_VIOLATION:
+        new[0][1]["what_the_remote_end_made_of_the_bytes_that_arrived"] = [
+            (w, dict((k, rp[k]) for k in ("seen", "expected", "stdout", "stderr") if k in rp)) for w, rp in new[1:]]
+        del ctx.violations[before + 1:]
+    return r
+
+
+def bootstrap_case_run(ctx, scr, case, rng):
     """case: dict(profile/table spec, options, how, mode).  Returns (impl_obs, info) and reports."""
     mode = case["mode"]                     # 'real' (real zlib) or 'stub' (stand-in codec both sides)
     srcs = case["srcs"]                     # None = the real module sources
@@ -1054,12 +1420,46 @@ def bootstrap_case(ctx, scr, case, rng):
     stub = mode == "stub"
     real_server = case.get("real_server", False)     # every module but (possibly) the assembler is the shipped source
     remote, rw = case.get("remote"), case.get("rw")      # -r given: the command goes through ssh and the remote shell
-    argv, writes, packaged = real_connect(options, srcs, stub_zlib=stub, verbose=case.get("verbose", 0), remote=remote,
-                                          bindir=rw.bin if remote else None)
+    win, wobs = case.get("win32"), None
+    if win:
+        # the client is a win32 one: the upload reaches ssh through the real relay threads and a raw pipe
+        wobs = win32_connect(options, srcs, stub, case.get("verbose", 0), win, announce=case.get("sync") or b"\0\0SSHUTTLE0001")
+        argv, writes, packaged = wobs["argv"] or [], wobs["writes"], wobs["packaged"]
+    else:
+        argv, writes, packaged = real_connect(options, srcs, stub_zlib=stub, verbose=case.get("verbose", 0), remote=remote,
+                                              bindir=rw.bin if remote else None)
     info = {"mode": mode, "how": how, "options": opts_canon(options),
             "sources": [(n, len(d), sha(d)[:16]) for n, d in packaged]}
+    if win:
+        info.update(kind="win32relay", win32=win, pipe_script=wobs["script"], popen=wobs["popen"])
     if remote:
         info["remote"] = dict(remote, host=case["rhost"], login_shell=case["login_shell"])
+    if win:
+        upload = b"".join(writes)
+        # oracle (implementation only): what reached ssh's stdin is the upload, whatever the pipe took per write()
+        got = wobs["delivered"]
+        ctx.count("win32_relay_write_mode_" + win["write_mode"])
+        ctx.count("win32_pipe_write_calls", wobs["script"]["write_calls"])
+        ctx.count("win32_pipe_short_writes", wobs["script"]["short_writes"])
+        if wobs["left_behind"]:
+            ctx.count("win32_relay_threads_left_behind", wobs["left_behind"])
+        if wobs["short_send"]:
+            ctx.count("win32_socket_write_short_ASSUMPTION_not_met")
+        elif got != upload or wobs["blocked"] or wobs["exc"]:
+            agree = 0
+            while agree < min(len(got), len(upload)) and got[agree] == upload[agree]:
+                agree += 1
+            ctx.violation(WIN32_VIOLATION,
+                          dict(info, upload_bytes=len(upload), arrived_bytes=len(got), streams_agree_for_the_first=agree,
+                               connect_blocked_until_watchdog=wobs["blocked"], connect_raised=wobs["exc"],
+                               relay_stderr=wobs["relay_stderr"], watchdog_s={"stall": RELAY_STALL, "total": RELAY_LIMIT}))
+        if wobs["announce_back"] is not None and wobs["announce_back"] != (case.get("sync") or b"\0\0SSHUTTLE0001"):
+            ctx.violation(WIN32_ANNOUNCE_VIOLATION, dict(info, read_back=hx(wobs["announce_back"]), relay_stderr=wobs["relay_stderr"]))
+        # the same table and options on any other platform: the same two payloads and the same command
+        argv_p, writes_p, _ = real_connect(options, srcs, stub_zlib=stub, verbose=case.get("verbose", 0))
+        if writes_p != writes or argv_p != argv:
+            ctx.disagree("win32 and posix branch of ssh.connect hand different uploads / commands to ssh", info,
+                         [argv, [sha(w) for w in writes]], [argv_p, [sha(w) for w in writes_p]])
     if len(writes) != 2:
         ctx.violation("ssh.connect did not write exactly (assembler, packages)", dict(info, writes=len(writes)))
         return
@@ -1070,7 +1470,11 @@ def bootstrap_case(ctx, scr, case, rng):
     check_read_len(ctx, argv, writes, packaged, options, srcs, "bootstrap")
     upload = writes[0] + writes[1]
     extra = case.get("extra", b"")
-    pieces = cut(rng, upload + extra, how, len(writes[0]))
+    if win:
+        # ... and the remote end is given exactly what arrived on ssh's stdin, cut exactly as the pipe took it
+        upload, pieces = wobs["delivered"], list(wobs["chunks"])
+    else:
+        pieces = cut(rng, upload + extra, how, len(writes[0]))
     sleeps = set(rng.randrange(len(pieces)) for _ in range(min(6, len(pieces)))) if len(pieces) > 1 else ()
     extra_env = rlog = None
     if remote:
@@ -1147,6 +1551,8 @@ def bootstrap_case(ctx, scr, case, rng):
                           dict(rep, stdout=res["out"][:300].decode("utf-8", "replace"), expected=mark, stderr=res["err"][-300:].decode("utf-8", "replace")))
         ctx.count("main_marker_seen")
     # ---- model
+    if win and wobs["delivered"] != writes[0] + writes[1]:
+        return timed_out            # (already reported; the model is only compared on streams that are the upload)
     total = sum(len(d) for _, d in packaged)
     if total > MODEL_MAX:
         ctx.count("model_skipped_too_large")
@@ -1164,7 +1570,7 @@ def bootstrap_case(ctx, scr, case, rng):
             ctx.disagree("connect_upload bytes", info, [sha(writes[0]), sha(writes[1])], [sha(m_c1), sha(m_c2)], holds=(mods_obs == expect))
         m_pieces = pieces
     else:
-        m_pieces = cut(rng, m_c1 + m_c2 + extra, how, len(m_c1))
+        m_pieces = cut(rng, m_c1 + m_c2 + extra, "random" if win else how, len(m_c1))
     run = ctx.run_driver(["RUN _ %s %s" % (numhex(m_len), " ".join(hx(p) for p in m_pieces))])[0]
     m_src, m_status, m_mods, m_left = parse_run(run)
     m_obs = [(n, len(d), sha(d)) for n, d in m_mods]
@@ -1350,9 +1756,28 @@ def part_bootstrap(ctx, scr, rw=None):
             c["srcs"]["sshuttle.assembler"] = assembler_with_comments(rng, extra=rng.choice([None, None, 1]))
     n_na = sum(1 for c in cases if c["srcs"] and "sshuttle.assembler" in c["srcs"])
     ctx.extra["bootstrap_runs_with_non_ascii_assembler"] = "%d of %d" % (n_na, len(cases))
-    timeouts = 0
+    # the client is a win32 one: real ssh.connect down its win32 branch, the upload crosses the real helpers.SocketRWShim
+    # into a raw pipe that takes 1 byte / at most 1000, 4096, 16383 / a random part / everything but once / everything
+    # of what each write() offers; what arrived is then given to the real bootstrap like every upload above
+    wplan = [("shipped", "one"), ("shipped", "cap4096"), ("shipped+comments", "random"), ("shipped", "once"), ("shipped", "whole"),
+             ("tiny", "one"), ("small", "one"), ("small", "random"), ("medium", "random"), ("medium", "cap1000"), ("pipe", "cap4096"),
+             ("pipe", "random"), ("huge", "cap16383")]
+    if not quick:
+        wplan = wplan * 4 + [(pr, wm) for pr in ("shipped", "shipped+comments", "small", "medium", "pipe") for wm in WIN32_WRITE_MODES] \
+            + [("huge", "random"), ("huge", "cap4096"), ("medium", "one")]
+    for i, (profile, wm) in enumerate(wplan):
+        spec = {"case_seed": rng.getrandbits(32), "profile": profile, "write_mode": wm, "read_mode": ["full", "short", "cap7"][i % 3],
+                "codec": "stub" if not profile.startswith("shipped") and i % 4 == 1 else "real", "non_ascii": i % 3 == 0}
+        cases.append(win32_case(spec, sync))
+    timeouts = win_failed = 0
     for c in cases:
+        if c.get("win32") and win_failed >= 2:
+            ctx.count("win32_cases_not_run_after_two_failing_ones")       # (each failing one may cost a watchdog period)
+            continue
+        before = len(ctx.violations)
         timeouts += 1 if bootstrap_case(ctx, scr, c, rng) == "timeout" else 0
+        if c.get("win32") and len(ctx.violations) > before:
+            win_failed += 1
         if timeouts >= 3:
             ctx.disagree("bootstrap", "three bootstrap runs timed out; remaining cases skipped", "timeout", "-")
             break
@@ -2180,6 +2605,27 @@ def replay(ctx, rp):
     """re-run a stored failing input against the real code; True if it still fails"""
     r = rp.get("replay", {})
     before = len(ctx.violations)
+    if r.get("kind") == "win32relay":
+        spec = r["win32"]
+        try:
+            sync = b"\0\0" + unhx(ctx.run_driver(["SYNC"])[0].split(" ")[1])
+        except Exception:
+            sync = b"\0\0SSHUTTLE0001"
+        print("win32 client; module table %r (regenerated from case_seed %d), codec %s; ssh's stdin pipe takes per write(): %s; "
+              "ssh's stdout pipe reads: %s" % (spec["profile"], spec["case_seed"], spec.get("codec", "real"), spec["write_mode"],
+                                               spec.get("read_mode", "full")))
+        scr = Scratch()
+        try:
+            bootstrap_case(ctx, scr, win32_case(spec, sync), random.Random(spec["case_seed"]))
+        finally:
+            scr.close()
+        for what, rep in ctx.violations[before:]:
+            print("FAILS:", what)
+            for k in ("upload_bytes", "arrived_bytes", "streams_agree_for_the_first", "pipe_script", "connect_blocked_until_watchdog",
+                      "what_the_remote_end_made_of_the_bytes_that_arrived", "seen", "expected", "stdout", "stderr"):
+                if k in rep:
+                    print("   %s: %s" % (k, str(rep[k])[:400]))
+        return len(ctx.violations) > before
     if r.get("kind") == "readlen":
         if "table_hex" not in r:
             print("table too large to be stored; sizes:", r.get("table_sizes"))
@@ -2229,7 +2675,6 @@ def replay(ctx, rp):
             print("FAILS:", what, "| started:", rep.get("started"), rep.get("started_argv"), "| words:", rep.get("words_seen_by_the_remote_shell"))
         return bool(fails)
     if "replay_case" in r:
-        import random
         rc = r["replay_case"]
         print("bootstrap cases are regenerated from the run seed; re-running the whole bootstrap part with seed", rp.get("seed"))
         ctx.rng = random.Random(rp.get("seed", ctx.seed))
